@@ -2406,7 +2406,14 @@ impl ModuleGraph {
       roots.iter().copied(),
       WalkOptions {
         follow_dynamic: true,
-        kind: self.graph_kind,
+        // A types-only walk replaces an untyped module by its types
+        // dependency, but that module is an entry of a types-only graph
+        // that other modules' dependencies point at, so keep it. Everything
+        // the builder did not follow is already cleared in such a graph.
+        kind: match self.graph_kind {
+          GraphKind::TypesOnly => GraphKind::All,
+          kind => kind,
+        },
         check_js: CheckJsOption::True,
         prefer_fast_check_graph: false,
       },
